@@ -323,6 +323,8 @@ def check(facts, chk, rule):
             chk.ok(rule, key, t.span, why, evals=len(GRID) ** 2)
             continue
         inv = INVARIANTS.get((_owner(b.name), expr))
+        if inv is None:          # the same expression read through another layer of borrows (a borrowed iterator instead of an owned one ..)
+            inv = next((v for (o, e), v in INVARIANTS.items() if o == _owner(b.name) and _skeleton(e) == _skeleton(expr)), None)
         if inv is not None:
             used.add((_owner(b.name), expr))
             chk.ok(rule, key, t.span, 'data invariant (confirmed by reading): %s' % inv, nontrivial=False)
